@@ -568,10 +568,10 @@ theorem coherent_invariant_partial (c0 c : Cache) (h0 : Coherent c0) (hs : Steps
 
 /-- a brand-new runner is coherent (plain or sliding-window cache) -/
 theorem coherent_init (resetEnd : Int) (parallel ctx batch : Nat) (multi canShift : Bool) (vocab eosMod : Nat)
-    (window : Option Nat := none) :
-    Coherent (mkServer resetEnd parallel ctx batch multi canShift vocab eosMod window).cache := by
+    (window : Option Nat := none) (perSeqBatch : Bool := false) :
+    Coherent (mkServer resetEnd parallel ctx batch multi canShift vocab eosMod window perSeqBatch).cache := by
   unfold mkServer
-  generalize capacity parallel ctx batch window = cap
+  generalize capacityV perSeqBatch parallel ctx batch window = cap
   refine ⟨?_, fun j hj => ?_⟩
   · intro x hx
     simp only [List.mem_replicate] at hx
@@ -724,6 +724,97 @@ example : ∃ c1 i rest,
   · decide
   · decide
   · decide
+
+/-! ## records of different slots never share storage
+
+  In the model a record is a value, so this holds by construction; it is stated because the Go code
+  can break it (a fork that aliases `longestSlot.Inputs[:longest]` instead of copying it lets the forked
+  request's appends overwrite the source slot's record: seeded change C07-D).  The tie is the
+  `record-aliasing` monitors on the real slots of both runners and the exact L1 comparison of every
+  record after every event. -/
+
+theorem getSlot_setSlot_other (l : List Slot) (i j : Nat) (f : Slot → Slot) (h : j ≠ i) :
+    getSlot (setSlot l i f) j = getSlot l j := by
+  unfold getSlot setSlot
+  rw [List.getD_eq_getElem?_getD, List.getD_eq_getElem?_getD, List.getElem?_modify]
+  have : ¬ i = j := fun e => h e.symm
+  cases l[j]? <;> simp [this]
+
+/-- Forward + append on slot `i` leaves every other slot (record, ownership, age) unchanged. -/
+theorem forward_other_records (c : Cache) (i j : Nat) (new : List Tok) (loc : Nat) (h : j ≠ i) :
+    getSlot (forward c i new loc).slots j = getSlot c.slots j := by
+  unfold forward; exact getSlot_setSlot_other _ _ _ _ h
+
+/-- LoadCacheSlot (either policy, fork included: the fork's destination IS the returned slot) leaves
+    every other slot unchanged — in particular the source of a fork keeps its whole record. -/
+theorem load_other_records (c : Cache) (prompt : List Tok) (now : Nat) (cr : CanRes) (c' : Cache) (i : Nat)
+    (rest : List Tok) (h : loadCacheSlot c prompt now cr = .ok (c', i, rest)) (j : Nat) (hj : j ≠ i) :
+    getSlot c'.slots j = getSlot c.slots j := by
+  obtain ⟨c1, i0, n, hf, ht⟩ := load_split c prompt now cr c' i rest h
+  have sp := findSlot_spec c prompt now c1 i0 n hf
+  obtain ⟨m, _, _, rfl, _, hs⟩ := loadTail_shape c1 i0 n prompt now cr c' i rest ht
+  rw [hs, getSlot_setSlot_other _ _ _ _ hj]
+  rcases sp.shape with rfl | ⟨li, _, _, _, rfl⟩
+  · rfl
+  · exact getSlot_setSlot_other _ _ _ _ hj
+
+/-- ShiftCacheSlot (success or failure path) leaves every other slot unchanged. -/
+theorem shift_other_records (c : Cache) (i keep : Nat) (c' : Cache)
+    (h : shiftCacheSlot c i keep = .ok c' ∨ ∃ ins, shiftCacheSlot c i keep = .reprocess c' ins)
+    (j : Nat) (hj : j ≠ i) : getSlot c'.slots j = getSlot c.slots j := by
+  unfold shiftCacheSlot at h
+  simp only at h
+  split at h
+  · rcases h with h | ⟨_, h⟩ <;> cases h
+  · split at h
+    · rcases h with h | ⟨_, h⟩
+      · cases h; rfl
+      · cases h
+    · split at h
+      · rcases h with h | ⟨_, h⟩
+        · cases h
+        · cases h; exact getSlot_setSlot_other _ _ _ _ hj
+      · rcases h with h | ⟨_, h⟩
+        · cases h; exact getSlot_setSlot_other _ _ _ _ hj
+        · cases h
+
+/-- the same for the llama.cpp runner's bookkeeping (records only) -/
+theorem llLoad_other_records (c : Cache) (prompt : List Tok) (now : Nat) (cp : Bool) (c' : Cache) (i : Nat)
+    (rest : List Tok) (h : llLoad c prompt now cp = .ok (c', i, rest)) (j : Nat) (hj : j ≠ i) :
+    getSlot c'.slots j = getSlot c.slots j := by
+  unfold llLoad at h
+  split at h
+  · cases h
+  · next c1 i0 n hf =>
+    have sp := findSlot_spec c prompt now c1 i0 n hf
+    obtain ⟨m, _, _, rfl, _, hs⟩ := loadTail_shape c1 i0 _ prompt now _ c' i rest h
+    rw [hs, getSlot_setSlot_other _ _ _ _ hj]
+    rcases sp.shape with rfl | ⟨li, _, _, _, rfl⟩
+    · rfl
+    · exact getSlot_setSlot_other _ _ _ _ hj
+
+/-- llamarunner: the reused prefix is a prefix of the prompt and one input is left (cachePrompt or not) -/
+theorem llLoad_prefix_sound (c : Cache) (prompt : List Tok) (now : Nat) (cp : Bool) (c' : Cache) (i : Nat)
+    (rest : List Tok) (hp : prompt ≠ []) (h : llLoad c prompt now cp = .ok (c', i, rest)) :
+    (getSlot c'.slots i).inputs ++ rest = prompt ∧ rest ≠ [] ∧
+      ∃ hi : i < c.slots.length, c.slots[i].inUse = false := by
+  unfold llLoad at h
+  split at h
+  · cases h
+  · next c1 i0 n hf =>
+    have sp := findSlot_spec c prompt now c1 i0 n hf
+    obtain ⟨m, hmn, hlt, rfl, rfl, hs⟩ := loadTail_shape c1 i0 _ prompt now _ c' i rest h
+    have hi1 : i < c1.slots.length := by rw [findSpec_length sp]; exact sp.valid
+    have hn' : (if cp = true then n else 0) ≤ n := by split <;> omega
+    rw [hs, getSlot_setSlot_same _ _ _ hi1]
+    simp only
+    rw [sp.pre m (by omega), List.take_append_drop]
+    refine ⟨rfl, ?_, sp.valid, by rw [← getSlot_eq _ _ sp.valid]; exact sp.free⟩
+    have := hlt hp (by have := sp.le; omega)
+    intro hnil
+    have : (prompt.drop m).length = 0 := by rw [hnil]; rfl
+    simp only [List.length_drop] at this
+    omega
 
 /-! ## sliding window: the leave-one / CanResume ordering -/
 
